@@ -413,7 +413,7 @@ func verifC10View(c *Conf, post bool) string {
 			if o2 == nil {
 				o2 = &OptionalPath{Values: newOptionalPathValues()}
 			}
-			p = newPath(&c.PathDefaults, o2)
+			p = verifC10NewPath(name, &c.PathDefaults, o2)
 		}
 		if p == nil {
 			w.sb.WriteString(" | P-missing")
@@ -422,6 +422,26 @@ func verifC10View(c *Conf, post bool) string {
 		verifC10Path(w, name, p, optional)
 	}
 	return w.sb.String()
+}
+
+// verifC10NewPath calls the unexported newPath through reflection so that the harness keeps building when its signature
+// changes (a tree in which newPath also takes the map key must yield a replayable verdict, not a build break).
+func verifC10NewPath(name string, defaults *Path, optional *OptionalPath) *Path {
+	f := reflect.ValueOf(newPath)
+	var args []reflect.Value
+	for i := 0; i < f.Type().NumIn(); i++ {
+		switch f.Type().In(i) {
+		case reflect.TypeOf(""):
+			args = append(args, reflect.ValueOf(name))
+		case reflect.TypeOf(defaults):
+			args = append(args, reflect.ValueOf(defaults))
+		case reflect.TypeOf(optional):
+			args = append(args, reflect.ValueOf(optional))
+		default:
+			panic("verif: newPath has a parameter of unknown type " + f.Type().In(i).String())
+		}
+	}
+	return f.Call(args)[0].Interface().(*Path)
 }
 
 // ---------- running the real code ----------
@@ -685,7 +705,7 @@ func verifC10LoadOp(file []byte, rk, mk *string, kvs []verifC10KV) string {
 
 func TestVerifC10(t *testing.T) {
 	verifutil.Main(t, &verifutil.Harness{
-		ID: "C10", Exec: verifC10Exec, Gen: verifC10Gen, Quick: 3200, Thorough: 40000,
+		ID: "C10", Exec: verifC10Exec, Gen: verifC10Gen, Quick: 2800, Thorough: 40000,
 		Class: verifC10Class,
 	})
 }
